@@ -344,16 +344,16 @@ impl IgnoreFilter {
 
 		let mut search_path = path;
 		loop {
-			let Some(trie_node) = self
-				.ignores
-				.get_ancestor(&search_path.display().to_string())
-			else {
+			// Look the ancestors up directory by directory: the trie's own notion of an ancestor
+			// is a string prefix, which would also find `test` for a path under `tests`.
+			let Some((trie_path, ignores)) = search_path.ancestors().find_map(|dir| {
+				self.ignores
+					.get(&dir.display().to_string())
+					.map(|ignores| (dir, ignores))
+			}) else {
 				trace!(?path, ?search_path, "no ignores for path");
 				return Match::None;
 			};
-
-			// Unwrap will always succeed because every node has an entry.
-			let ignores = trie_node.value().unwrap();
 
 			let match_ = if path.strip_prefix(&self.origin).is_ok() {
 				trace!(?path, ?search_path, "checking against path or parents");
@@ -370,8 +370,6 @@ impl IgnoreFilter {
 						?search_path,
 						"no match found, searching for parent ignores"
 					);
-					// Unwrap will always succeed because every node has an entry.
-					let trie_path = Path::new(trie_node.key().unwrap());
 					if let Some(trie_parent) = trie_path.parent() {
 						trace!(?path, ?search_path, "checking parent ignore");
 						search_path = trie_parent;
